@@ -488,3 +488,33 @@ Lemma f5_unguarded : route false f5_state (Some 8) true 1002 5000 = Some 0%nat.
 Proof. vm_compute. reflexivity. Qed.
 Lemma f5_ref : ref_select (map (rl_of 1002 5000) (xs f5_state)) = Some 1%nat.
 Proof. vm_compute. reflexivity. Qed.
+
+(** ---- statements pinned in Props/C10.v ---- *)
+From Srtla Require Shape.
+
+Lemma select_insensitive l l' now tmo :
+  Forall inv_x l -> Forall inv_x l' ->
+  map (rl_of now tmo) l = map (rl_of now tmo) l' -> select l now tmo = select l' now tmo.
+Proof. intros H H' E. rewrite !select_refines_ref by assumption. rewrite E. reflexivity. Qed.
+
+Lemma route_refines_ref s seq retx now tmo :
+  Inv s -> route Shape.override_mode_guarded s seq retx now tmo = ref_select (map (rl_of now tmo) (xs s)).
+Proof. intros H. unfold route. cbn. apply select_refines_ref. exact H. Qed.
+
+Lemma unguarded_override_refuted : exists s seq retx now tmo,
+  Inv s /\ route false s seq retx now tmo <> ref_select (map (rl_of now tmo) (xs s)).
+Proof.
+  exists f5_state, (Some 8), true, 1002, 5000. split; [exact f5_inv|].
+  rewrite f5_unguarded, f5_ref. discriminate.
+Qed.
+
+Lemma srtla_ack_event_both cs als idx seq now :
+  Forall2 arel cs als -> Forall inv_link cs ->
+  Forall2 arel (srtla_ack_event cs idx seq true now) (ref_srtla_ack_one idx als seq) /\
+  Forall inv_link (srtla_ack_event cs idx seq true now).
+Proof. intros. split; [apply srtla_ack_event_ref|apply srtla_ack_event_inv]; assumption. Qed.
+
+Lemma monitor_holds n g ops :
+  Forall wf_op ops ->
+  ok_C10 (obs_shell (xinit n g)) (model_trace Shape.override_mode_guarded (xinit n g) ops) = true.
+Proof. exact (monitor_holds_guarded n g ops). Qed.
